@@ -112,6 +112,19 @@ def lean_sources_of(modules):
     return sorted(files)
 
 
+def leanchecker(modules, timeout=1200):
+    """independent re-check of the compiled modules (thorough tier): → (ok, detail)"""
+    try:
+        with _Lock():
+            r = subprocess.run(["lake", "env", "leanchecker"] + list(modules), cwd=LEAN_DIR,
+                               stdout=subprocess.PIPE, stderr=subprocess.STDOUT, text=True, timeout=timeout)
+    except subprocess.TimeoutExpired:
+        raise MachineryError("leanchecker timed out")
+    except FileNotFoundError:
+        return True, "leanchecker not on PATH (skipped)"
+    return r.returncode == 0, (r.stdout.strip()[-400:] or "ok")
+
+
 def audit(modules, theorems, timeout=900):
     """`#print axioms` for each theorem. returns {theorem: (ok, detail)}"""
     src = "".join(f"import {m}\n" for m in modules) + "".join(f"#print axioms {t}\n" for t in theorems)
